@@ -71,10 +71,32 @@ Fixpoint zlist_eqb (a b : list Z) : bool :=
 Definition run_enc (v : variant) (sps : list spec) (ops : list op) : list Z :=
   enc_world (run v (init_world sps) ops).
 
+(* the overlap decisions of every join(discard_overlapping_frames=True), in the state the join meets: per op
+   [0] (not such a join), [2] (an operand without frames), or 1 :: n :: the n decisions.  The harness compares them
+   with the numeric decisions (all |dx| < 2e-3) to recognise cases where two frames are numerically equal although
+   their symbolic terms differ (excluded from the tie, counted in the evidence) *)
+Definition op_plan (w : world) (o : op) : list Z :=
+  let enc (t : traj) (os : list traj) :=
+    match join_plan true (map (frames w) (t :: os)) with
+    | Some p => 1 :: zn (length p) :: map zb p
+    | None => [2]
+    end in
+  match o with
+  | OJoin r os _ true => match nth_error (trajs w) r, get_all w os with Some t, Some l => enc t l | _, _ => [0] end
+  | OMdJoin rs true => match get_all w rs with Some (t :: l) => enc t l | _ => [0] end
+  | _ => [0]
+  end.
+Fixpoint run_plans (v : variant) (w : world) (ops : list op) : list Z :=
+  match ops with
+  | [] => []
+  | o :: rest => op_plan w o ++ run_plans v (fst (step v w o)) rest
+  end.
+
 Definition run_all (c : list spec * list op) : list Z :=
   let '(sps, ops) := c in
   let base := run_enc v_fix sps ops in
   let other (v : variant) := let e := run_enc v sps ops in if zlist_eqb e base then [0] else 1 :: e in
   base ++ other (mkVar false true false) ++ other (mkVar true false false) ++ other v_cur
   ++ other (mkVar true true true) ++ other (mkVar false true true) ++ other (mkVar true false true)
-  ++ other (mkVar false false true).
+  ++ other (mkVar false false true)
+  ++ run_plans v_fix (init_world sps) ops.
